@@ -56,7 +56,7 @@ ASSUMPTIONS = [
     "the botocore client is created for real once per worker (offline); afterwards S3VersionUtil.__init__ runs unchanged but its get_session() hands back that same client (0.1 s per construction otherwise); .s3_client and .manager are then replaced by the scripted fakes",
     "the number of list calls is reported in the labels (list_calls_minus_minimal:*), not asserted; only termination within n+3 calls is required",
     "row order of the returned frame and the order among versions with equal timestamps are not asserted (statement: 'newest first', 'each once')",
-    "VersionedDataHandler receives ISO strings with an explicit +00:00 offset (naive strings would be read in the machine's local zone, which the statement does not fix)",
+    "VersionedDataHandler receives ISO strings with an explicit UTC offset (+00:00, -05:00, +09:30 or +01:00, chosen per case; naive strings would be read in the machine's local zone, which the statement does not fix)",
 ]
 FLOOR = {"quick": 250, "thorough": 3000}  # a quarter of the smallest value seen (quick 1084 over seeds 1-3, thorough 13544)
 
@@ -385,8 +385,15 @@ def _bound_dt(ms):
     return None if ms is None else (EPOCH + timedelta(milliseconds=ms)).astimezone(dtz.gettz("UTC"))
 
 
-def _iso(ms):
-    return None if ms is None else (EPOCH + timedelta(milliseconds=ms)).isoformat()
+ISO_OFFSETS_MIN = [0, -300, 570, 60]  # the same instant written with different UTC offsets (+00:00, -05:00, +09:30, +01:00)
+
+
+def _iso(ms, offset_min=0):
+    if ms is None:
+        return None
+    from datetime import timezone
+
+    return (EPOCH + timedelta(milliseconds=ms)).astimezone(timezone(timedelta(minutes=offset_min))).isoformat()
 
 
 # ------------------------------------------------------------------------------------------------------------
@@ -457,8 +464,11 @@ def _build(env, case, bucket, key, via_handler):
     mgr = FakeManager(bucket, key, len(ts), fmt, case.get("fail", []))
     zone = case.get("tz", "America/New_York")
     if via_handler:
+        # the window strings carry an explicit offset; which offset the instant is written with must not matter
+        off_s = ISO_OFFSETS_MIN[(len(ts) + case.get("sample", 2)) % len(ISO_OFFSETS_MIN)]
+        off_e = ISO_OFFSETS_MIN[(len(ts) + 2 * case.get("sample", 2) + 1) % len(ISO_OFFSETS_MIN)]
         obj = env["vd"].VersionedDataHandler(
-            ELECTION_ID, OFFICE, GEO, ["margin"], start_date=_iso(case["start"]), end_date=_iso(case["end"]), sample=case.get("sample", 2), tzinfo=zone
+            ELECTION_ID, OFFICE, GEO, ["margin"], start_date=_iso(case["start"], off_s), end_date=_iso(case["end"], off_e), sample=case.get("sample", 2), tzinfo=zone
         )
         util = obj.s3_client
     else:
